@@ -5,7 +5,7 @@
 From Coq Require Import NArith ZArith List Bool Arith Lia.
 From FQE Require Import Bits GenBase.
 From FQE.gen Require Import Gen_bitstring_py Gen_bitstring_h Gen_settings.
-Open Scope Z_scope.
+Local Open Scope Z_scope.
 
 Definition spec_between_mask (i j : Z) : Z :=
   Z.of_N (range_mask (S (Nat.min (Z.to_nat i) (Z.to_nat j))) (Nat.max (Z.to_nat i) (Z.to_nat j))).
